@@ -13,6 +13,7 @@ package server
 
 import (
 	"fmt"
+	"runtime"
 	"sync"
 	"testing"
 	"time"
@@ -27,21 +28,113 @@ type vActor struct {
 }
 
 type vSched struct {
-	w      *vWorld
-	cur    *vActor
-	signal chan *vActor
-	mu     sync.Mutex
+	w       *vWorld
+	signal  chan *vActor
+	mu      sync.Mutex
+	byGid   map[uint64]*vActor
+	running map[*vActor]bool
 }
 
+func vGoroutineID() uint64 {
+	var buf [64]byte
+	n := runtime.Stack(buf[:], false)
+	// "goroutine 123 [running]:..."
+	var id uint64
+	for _, c := range buf[10:n] {
+		if c < '0' || c > '9' {
+			break
+		}
+		id = id*10 + uint64(c-'0')
+	}
+	return id
+}
+
+// gate parks the calling actor; goroutines that are not actors (AOF channel, executors) pass through.
 func (s *vSched) gate(where string) {
-	a := s.cur
+	s.mu.Lock()
+	a := s.byGid[vGoroutineID()]
+	s.mu.Unlock()
 	if a == nil {
 		return
 	}
 	a.where = where
-	a.state = 2
 	s.signal <- a
 	<-a.resume
+}
+
+// release lets actor a run until it parks at its next gate or finishes.  If it does neither within 300 ms it is
+// blocked on something only another actor can undo (it spins on the fast-slot lock or waits for a mutex): it is
+// left running and the caller goes on scheduling; its signal is consumed whenever it arrives.
+func (s *vSched) release(a *vActor) string {
+	if a == nil || a.state == 3 || a.state == 1 {
+		return ""
+	}
+	if s.running == nil {
+		s.running = map[*vActor]bool{}
+	}
+	if a.state == 0 {
+		a.state = 1
+		s.running[a] = true
+		go func(a *vActor) {
+			s.mu.Lock()
+			s.byGid[vGoroutineID()] = a
+			s.mu.Unlock()
+			a.body()
+			a.where = "<end>"
+			s.signal <- a
+		}(a)
+	} else {
+		a.state = 1
+		s.running[a] = true
+		a.resume <- struct{}{}
+	}
+	timeout := time.After(300 * time.Millisecond)
+	for s.running[a] {
+		select {
+		case x := <-s.signal:
+			s.settle(x)
+		case <-timeout:
+			return s.drain()
+		}
+	}
+	return s.drain()
+}
+
+func (s *vSched) settle(x *vActor) {
+	delete(s.running, x)
+	if x.where == "<end>" {
+		x.state = 3
+	} else {
+		x.state = 2
+	}
+}
+
+// drain gives actors that were unblocked by the last step a moment to reach their gate
+func (s *vSched) drain() string {
+	for len(s.running) > 0 {
+		select {
+		case x := <-s.signal:
+			s.settle(x)
+		case <-time.After(3 * time.Millisecond):
+			return ""
+		}
+	}
+	return ""
+}
+
+// waitAll waits until every running actor has parked or finished (used when nothing else is runnable)
+func (s *vSched) waitAll() string {
+	for len(s.running) > 0 {
+		select {
+		case x := <-s.signal:
+			s.settle(x)
+		case <-time.After(20 * time.Second):
+			for a := range s.running {
+				return fmt.Sprintf("actor %d did not reach a gate or finish within 20s (last gate %q)", a.id, a.where)
+			}
+		}
+	}
+	return ""
 }
 
 // runPar executes the actors under the schedule; returns an error string on a stuck run.
@@ -55,7 +148,13 @@ func (s *vSched) runPar(actors []*vActor, sched []int) string {
 			}
 		}
 		if len(ready) == 0 {
-			return ""
+			if len(s.running) == 0 {
+				return ""
+			}
+			if e := s.waitAll(); e != "" {
+				return e
+			}
+			continue
 		}
 		pick := ready[0]
 		if i < len(sched) {
@@ -66,24 +165,7 @@ func (s *vSched) runPar(actors []*vActor, sched []int) string {
 			pick = ready[k%len(ready)]
 			i++
 		}
-		s.cur = pick
-		if pick.state == 0 {
-			pick.state = 1
-			go func(a *vActor) {
-				a.body()
-				a.state = 3
-				s.signal <- a
-			}(pick)
-		} else {
-			pick.state = 1
-			pick.resume <- struct{}{}
-		}
-		select {
-		case <-s.signal:
-		case <-time.After(20 * time.Second):
-			return fmt.Sprintf("actor %d did not reach a gate or finish within 20s (last gate %q)", pick.id, pick.where)
-		}
-		s.cur = nil
+		s.release(pick)
 	}
 }
 
@@ -92,8 +174,12 @@ type vParStep struct {
 	Sched []int  `json:"sched"`
 }
 
-func (w *vWorld) runParStep(nextId *int64, ops []vReq, sched []int) {
-	s := &vSched{w: w, signal: make(chan *vActor)}
+func (w *vWorld) runParStep(nextId *int64, ops []vReq, sched []int, extraGates []string) {
+	extra := map[string]bool{}
+	for _, g := range extraGates {
+		extra[g] = true
+	}
+	s := &vSched{w: w, signal: make(chan *vActor), byGid: map[uint64]*vActor{}}
 	var actors []*vActor
 	w.tr.Emit(map[string]interface{}{"e": "par", "n": len(ops), "t": w.now})
 	ticked := false
@@ -170,8 +256,12 @@ func (w *vWorld) runParStep(nextId *int64, ops []vReq, sched []int) {
 	VerifPointFunc = func(name string, a interface{}, b interface{}) {
 		// only the lock-engine yield points are gates of this engine; the AOF hooks fire on background goroutines
 		switch name {
-		case "lock.mgr.got", "unlock.mgr.got", "sweep.timeout.collected", "sweep.expried.collected", "wake.enter", "wake.iter":
+		case "lock.mgr.got", "unlock.mgr.got", "mgr.published", "sweep.timeout.collected", "sweep.expried.collected", "wake.enter", "wake.iter":
 			s.gate(name)
+		default:
+			if extra[name] {
+				s.gate(name)
+			}
 		}
 	}
 	errs := s.runPar(actors, sched)
@@ -200,6 +290,7 @@ type vStepC struct {
 	Sched  []int           `json:"sched"`
 	Actors map[string]vReq `json:"actors"`
 	Script []string        `json:"script"`
+	Gates  []string        `json:"gates"`
 }
 
 // runScript executes a TLC-generated schedule of LockEngineFine: every script element names the actor whose
@@ -208,7 +299,7 @@ type vStepC struct {
 // sweep.*.collected, wake.iter) or its end; an element naming a finished or unknown actor is skipped, and what is
 // left at the end runs to completion - the monitors judge whatever happened.
 func (w *vWorld) runScript(nextId *int64, actorsReq map[string]vReq, script []string) {
-	s := &vSched{w: w, signal: make(chan *vActor)}
+	s := &vSched{w: w, signal: make(chan *vActor), byGid: map[uint64]*vActor{}}
 	named := map[string]*vActor{}
 	var all []*vActor
 	w.tr.Emit(map[string]interface{}{"e": "par", "n": len(actorsReq), "t": w.now, "script": len(script)})
@@ -224,31 +315,17 @@ func (w *vWorld) runScript(nextId *int64, actorsReq map[string]vReq, script []st
 	}
 	stuck := ""
 	release := func(a *vActor) {
-		if a == nil || a.state == 3 || stuck != "" {
-			return
+		if stuck == "" {
+			s.release(a)
 		}
-		s.cur = a
-		if a.state == 0 {
-			a.state = 1
-			go func(a *vActor) {
-				a.body()
-				a.state = 3
-				s.signal <- a
-			}(a)
-		} else {
-			a.state = 1
-			a.resume <- struct{}{}
-		}
-		select {
-		case <-s.signal:
-		case <-time.After(20 * time.Second):
-			stuck = fmt.Sprintf("actor %d did not reach a gate or finish within 20s (last gate %q)", a.id, a.where)
-		}
-		s.cur = nil
 	}
 	finish := func(a *vActor) {
 		for a != nil && a.state != 3 && stuck == "" {
-			release(a)
+			if a.state == 1 {
+				stuck = s.waitAll()
+				continue
+			}
+			s.release(a)
 		}
 	}
 	ticked := false
@@ -358,7 +435,7 @@ func TestVerifC(t *testing.T) {
 		for j := range sc.Steps {
 			st := &sc.Steps[j]
 			if st.Op == "par" {
-				w.runParStep(&nextId, st.Ops, st.Sched)
+				w.runParStep(&nextId, st.Ops, st.Sched, st.Gates)
 				w.tr.Emit(w.Snapshot())
 			} else if st.Op == "fine" {
 				w.runScript(&nextId, st.Actors, st.Script)
